@@ -72,7 +72,7 @@ impl<'a> Run<'a> {
             .map(|t| {
                 json!({
                     "t": t.uid,
-                    "outs": t.outs.iter().map(|o| json!({"n": o.note, "pool": o.pool.code(), "v": o.value, "acct": o.acct})).collect::<Vec<_>>(),
+                    "outs": t.outs.iter().map(|o| json!({"n": o.note, "pool": o.pool.code(), "v": o.value, "acct": o.acct, "int": o.internal})).collect::<Vec<_>>(),
                     "spends": t.spends,
                 })
             })
